@@ -238,3 +238,32 @@ func TestC02_URLDefault(t *testing.T) {
 		return c02URLCase{Period: rapid.Uint64Range(0, 1<<32).Draw(t, "pu")}
 	})
 }
+
+// The default time-counter function itself (exported variable): floor(unix/period), period 0 = 30.
+type c02TCFCase struct {
+	Unix   int64  `json:"unix"`
+	Nsec   int    `json:"nsec"`
+	Period uint64 `json:"period"`
+}
+
+var c02TCF = newPart("C02", "time-counter",
+	"rapid: the default TimeCounterFunc value called directly with instants 0..2^62 (boundary-centred) x nanoseconds x periods 0..2^32; oracle: floor(unix/period), period 0 meaning 30; non-trivial = period != 30 or nanoseconds != 0 or instant within 2 s of a boundary",
+	func(c c02TCFCase) verdict {
+		eff := c.Period
+		if eff == 0 {
+			eff = 30
+		}
+		got := otp.TimeCounterFunc(time.Unix(c.Unix, int64(c.Nsec)), uint(c.Period))
+		if want := uint64(c.Unix) / eff; got != want {
+			return bad(true, nil, "TimeCounterFunc(unix=%d.%09d, period=%d) = %d, want %d", c.Unix, c.Nsec, c.Period, got, want)
+		}
+		rem := uint64(c.Unix) % eff
+		return ok(c.Period != 30 || c.Nsec != 0 || rem <= 2 || eff-rem <= 2, fmt.Sprintf("zero-period=%v", c.Period == 0))
+	})
+
+func TestC02_TimeCounter(t *testing.T) {
+	c02TCF.rapid(t, ev.Pick(20_000, 400_000), func(t *rapid.T) c02TCFCase {
+		g := genC02(t)
+		return c02TCFCase{Unix: g.Unix, Nsec: g.Nsec, Period: g.Period}
+	})
+}
